@@ -103,12 +103,14 @@ Definition close_mirror_never_panics_stmt : Prop :=
   forall g nl fs keys K fuel, close_pre g nl fs keys K ->
     close_mirror g nl fs keys K fuel <> Panic.
 
-(* 4. the order of the initial keys (and the fuel) does not matter *)
+(* 4. the order of the initial keys, the order in which the map K itself is laid
+   out (K1, K2: the same items) and the fuel do not matter *)
 Definition close_mirror_order_insensitive_stmt : Prop :=
-  forall g nl fs K keys1 keys2 fuel1 fuel2 C1 C2,
-    close_pre g nl fs keys1 K -> close_pre g nl fs keys2 K ->
-    close_mirror g nl fs keys1 K fuel1 = Done C1 ->
-    close_mirror g nl fs keys2 K fuel2 = Done C2 ->
+  forall g nl fs K1 K2 keys1 keys2 fuel1 fuel2 C1 C2,
+    (forall i, In i K1 <-> In i K2) ->
+    close_pre g nl fs keys1 K1 -> close_pre g nl fs keys2 K2 ->
+    close_mirror g nl fs keys1 K1 fuel1 = Done C1 ->
+    close_mirror g nl fs keys2 K2 fuel2 = Done C2 ->
     same_itemset C1 C2.
 
 (* 5. goto = { [A -> alpha X . beta, L] | [A -> alpha . X beta, L] in S },
